@@ -340,7 +340,9 @@ func Verif_C10_CleanDeep() {
 	w.checkQuiescent(res)
 }
 
-func c10Faults(n, workers, fault int, stall bool) {
+func c10Faults(n, workers, fault int, stall bool) { c10FaultsOpt(n, workers, fault, stall, false) }
+
+func c10FaultsOpt(n, workers, fault int, stall, onlySum bool) {
 	at := rt.Choose("at", n+1)
 	if (fault == c10MapPanic || fault == c10MapCancelErr || fault == c10MapCancelNil || fault == c10MapCancelTwice) && at >= n {
 		rt.Assume(false)
@@ -351,6 +353,9 @@ func c10Faults(n, workers, fault int, stall bool) {
 	style := rt.Choose("reducerStyle", 2) // 0 sum at the end, 1 write on first value
 	void := rt.Choose("void", 2) == 1
 	if void && style == 1 {
+		rt.Assume(false)
+	}
+	if onlySum && (void || style == 1) {
 		rt.Assume(false)
 	}
 	if rt.Tier() == 0 && stall && (void || style == 1) {
@@ -452,7 +457,7 @@ func Verif_C10_Faults() {
 }
 
 //verif:entry tier=quick,thorough steps=4000000 preempt=1 cover=ctxerr,completed,stalled
-//verif:doc MapReduce / MapReduceVoid whose context is cancelled at an arbitrary scheduling point (a minimal context.Context implementation: Done channel + Err), 1 item x 1 worker (thorough also 1 x 2 and 2 x 1), optionally (1 x 1) with a mapper that ignores the context and stalls until after the call has returned; all schedules with at most 1 preemption: the call returns a context error or the complete result, never ErrReduceNoOutput/nil for a reduction that was cut short; it returns although the mapper stalls; no goroutine is left once the stalled mapper is released.
+//verif:doc MapReduce / MapReduceVoid whose context is cancelled at an arbitrary scheduling point (a minimal context.Context implementation: Done channel + Err), 1 item x 1 worker (thorough also 1 x 2, and 2 x 1 with the summing value-returning reducer only), optionally (1 x 1) with a mapper that ignores the context and stalls until after the call has returned; all schedules with at most 1 preemption: the call returns a context error or the complete result, never ErrReduceNoOutput/nil for a reduction that was cut short; it returns although the mapper stalls; no goroutine is left once the stalled mapper is released.
 func Verif_C10_Context() {
 	n, workers := 1, 1
 	if rt.Tier() > 0 {
@@ -463,21 +468,27 @@ func Verif_C10_Context() {
 	if n == 1 && workers == 1 {
 		stall = rt.Choose("stall", 2) == 1
 	}
+	if n == 2 {
+		// 2 items: only the summing, value-returning reducer (1.5 million schedules; the other reducer
+		// styles are covered with 1 item)
+		c10FaultsOpt(n, workers, c10CtxCancel, stall, true)
+		return
+	}
 	c10Faults(n, workers, c10CtxCancel, stall)
 }
 
 //verif:entry tier=thorough steps=4000000 preempt=1 cover=repanic,cancelerr
-//verif:doc MapReduce with one fault out of {generator panic, mapper panic, mapper cancel(err), reducer cancel(err)}, 2 items x 2 workers, all schedules with at most 1 preemption; same assertions as Verif_C10_Faults.
+//verif:doc MapReduce (summing, value-returning reducer) with one fault out of {mapper panic, mapper cancel(err), reducer cancel(err)}, 2 items x 2 workers, all schedules with at most 1 preemption; same assertions as Verif_C10_Faults.
 func Verif_C10_FaultsWide() {
-	c10Faults(2, 2, []int{c10GenPanic, c10MapPanic, c10MapCancelErr, c10RedCancelErr}[rt.Choose("fault", 4)], false)
+	c10FaultsOpt(2, 2, []int{c10MapPanic, c10MapCancelErr, c10RedCancelErr}[rt.Choose("fault", 3)], false, true)
 }
 
 type c10TypedErr struct{ code int }
 
 func (e c10TypedErr) Error() string { return "c10: typed cancel error" }
 
-//verif:entry tier=thorough steps=4000000 preempt=1 cover=first,second,ctx
-//verif:doc MapReduce with TWO cancellations whose errors have different dynamic types: 2 items x 2 workers, the mapper of item 0 cancels with an errors.New value and the mapper of item 1 with a struct-typed error, or one mapper cancels while the caller's context ends; schedules with at most 1 preemption: the call returns one of the errors passed to cancel (or a context error), never panics, and leaves no goroutine.
+//verif:entry dpor tier=thorough steps=4000000 cover=first,second,ctx
+//verif:doc MapReduce with TWO cancellations whose errors have different dynamic types: 2 items x 2 workers, the mapper of item 0 cancels with an errors.New value and the mapper of item 1 with a struct-typed error, or one mapper cancels while the caller's context ends; ALL interleavings (DPOR): the call returns one of the errors passed to cancel (or a context error), never panics, and leaves no goroutine.
 func Verif_C10_TwoCancels() {
 	withCtx := rt.Choose("secondIsContext", 2) == 1
 	w := c10NewWorld(2, 2, 1)
